@@ -131,6 +131,17 @@ func (i *comparableInternalNode) count() int { return len(i.runts) }
 
 func (i *comparableInternalNode) deleteKey(minSize int, key Comparable) bool {
 	index := comparableSearchLessThanOrEqualTo(key, i.runts)
+	var leftSibling, rightSibling comparableNode
+	var leftCount, rightCount int
+
+	if index > 0 {
+		// Lock the left sibling before the child, so that siblings are always
+		// locked left to right, the same direction cursors traverse the leaves.
+		leftSibling = i.children[index-1]
+		leftSibling.lock()
+		defer leftSibling.unlock()
+	}
+
 	child := i.children[index]
 	child.lock()
 	defer child.unlock()
@@ -139,9 +150,6 @@ func (i *comparableInternalNode) deleteKey(minSize int, key Comparable) bool {
 		return false
 	}
 	// POST: child is too small
-
-	var leftSibling, rightSibling comparableNode
-	var leftCount, rightCount int
 
 	if index < len(i.runts)-1 {
 		// try right sibling first to encourage left leaning trees
@@ -158,9 +166,6 @@ func (i *comparableInternalNode) deleteKey(minSize int, key Comparable) bool {
 
 	if index > 0 {
 		// try left sibling
-		leftSibling = i.children[index-1]
-		leftSibling.lock()
-		defer leftSibling.unlock()
 		if leftCount = leftSibling.count(); leftCount > minSize {
 			child.adoptFromLeft(leftSibling)
 			i.runts[index] = child.smallest()
